@@ -33,6 +33,8 @@ extern int g_num_ovf;
 extern uintmax_t g_num_mag;
 extern size_t g_num_end;
 extern int g_num_base;		/* base actually used (after prefix / base-0 resolution) */
+extern int g_num_reqbase;	/* the base argument the conversion function was called with (0 for strtod) */
+extern const char * g_num_sptr;	/* the nptr argument the conversion function was called with */
 /* strtod only */
 extern double g_num_fval;	/* the correctly rounded value of the numeral (or +-HUGE_VAL / tiny on range error) */
 extern int g_num_frange;	/* 0 = no range error, 1 = overflow (ERANGE, +-HUGE_VAL), 2 = underflow reported by ERANGE */
@@ -48,7 +50,8 @@ extern size_t g_num_slen;
 #define NUM_MAXLEN 24		/* bound on the size of the symbolic string *object* (strlen < NUM_MAXLEN) */
 #endif
 
-#define NUM_GHOSTS g_num_calls, g_num_nd, g_num_neg, g_num_ovf, g_num_mag, g_num_end, g_num_base, g_num_fval, g_num_frange
+#define NUM_GHOSTS g_num_calls, g_num_nd, g_num_neg, g_num_ovf, g_num_mag, g_num_end, g_num_base, g_num_reqbase, g_num_sptr, \
+	g_num_fval, g_num_frange
 
 /* executable scan shared by the three integer entry points (and by native cross-checks) */
 void num_scan(const char * s, int base);
